@@ -402,7 +402,7 @@ def gen_cases(rng, tier):
         out.append(Case("h%d" % i, [["new"]] + [h2conv_op(rng) for _ in range(rng.randint(1, 3))], {}))
     for i in range({"quick": 120, "thorough": 2000, "search": 400}.get(tier, 120)):
         out.append(Case("ht%d" % i, [["new"]] + [h2convt_op(rng) for _ in range(rng.randint(1, 3))], {}))
-    # the same response arriving in two reads, the cut inside the trailer section (fix 7f45d68: a header group is
+    # the same response arriving in two reads, the cut inside the trailer section (fix 159a5ae: a header group is
     # only started when the Flags block that closes it is queued); at least two windows
     for i in range({"quick": 80, "thorough": 1500, "search": 300}.get(tier, 80)):
         ops = []
